@@ -153,7 +153,8 @@ def analyse : Expr → List Src
   | .aggWithout g e => (analyse e).map fun s => excludeMetricName (excludeLabel s g) false g
   | .topk e => analyse e
   | .countValuesBy g v e =>
-      (analyse e).map fun s => excludeMetricName (guaranteeLabel (includeLabel (aggBySrc g s) [v]) [v]) true g
+      -- the metric name goes first, then the parameter label (which may be __name__) is added: fix 50ef2a5
+      (analyse e).map fun s => guaranteeLabel (includeLabel (excludeMetricName (aggBySrc g s) true g) [v]) [v]
   | .func e => (analyse e).map reguarantee
   | .labelReplace dst e => (analyse e).map fun s => guaranteeLabel s [dst]
   | .absent ms => [absentSrc ms]
@@ -166,13 +167,14 @@ def analyse : Expr → List Src
   | .setOr on m l r => ((analyse l).map fun s => if on then includeMatching s m else s) ++ analyse r
   | .withScalar e => analyse e
 
-/-- `count_values("__name__", ...)` is outside the fragment (pint then excludes the label it has just included) -/
+/-- well-formedness of the fragment (until fix 50ef2a5 `count_values("__name__", ...)` had to be excluded here: pint
+excluded the label it had just included) -/
 def wf : Expr → Bool
   | .sel _ => true
   | .aggBy _ e => wf e
   | .aggWithout _ e => wf e
   | .topk e => wf e
-  | .countValuesBy _ v e => v != nameL && wf e
+  | .countValuesBy _ _ e => wf e
   | .func e => wf e
   | .labelReplace _ e => wf e
   | .absent _ => true
